@@ -49,6 +49,17 @@ def gpStep (incr : Bool) (s : GP) (p : Pipe) : GP :=
 def getPipes (incr : Bool) (order : List Pipe) : List Pipe :=
   (order.foldl (gpStep incr) ⟨List.replicate order.length default, 0⟩).res
 
+/-- The other shape `GetPipes` can have: all values collected, then sorted by name with the standard library
+(`sort.Slice` / `sort.Sort`, comparison `a.Name < b.Name`). The library's contract — the result is the sorted
+permutation — is modelled by core's merge sort on the name order (names are distinct map keys, so the sorted
+permutation is unique and stability does not matter). -/
+def libSortPipes (order : List Pipe) : List Pipe := order.mergeSort (fun a b => bytesLe a.name b.name)
+
+/-- `GetPipes` in the shape the extractor found in the source: `libSort` = collect-then-library-sort,
+otherwise the insertion loop with the counter behaviour `incr`. -/
+def getPipesShape (libSort incr : Bool) (order : List Pipe) : List Pipe :=
+  if libSort then libSortPipes order else getPipes incr order
+
 /-! ## SHOW PIPES paging (`cmdShowPipes`) -/
 
 def maxInt32 : Int := 2147483647
